@@ -921,7 +921,7 @@ func init() {
 	core.Register(&core.Prop{
 		ID:    "C02",
 		Level: "exploration",
-		Rule:  "generated transform_declarations: (A) every leaf (const/external/field with xpath or xpath_dynamic) x all 20 type/no_trim/keep_empty_or_null combinations in every context (object child, array element, FINAL_OUTPUT itself, under a cursor, concat argument, xpath_dynamic, typed and variadic function parameters with absent values), function errors with/without ignore_error, wide arrays/objects; (B) every composition of object/array/custom_func over reduced leaves to depth 3 with all cursor xpaths and key names {a,b,a.b,%}; (C) the same declaration text at two positions (under array vs object, parent vs child cursor), one template at several sites/cursors, nested templates — each x 10 records (6 XML, 3 JSON, 1 plain flat-file style tree); implementation run with the per-record result cache on and off, compared with the reference interpreter; distinct by (declarations, record), outcome class = (family, emitted JSON); further levels: (D) degenerate declarations, (E) arrays under xpath_dynamic, (F) ignore_error inline / in templates / next to a twin, (G) a template referenced with an xpath at several cursors of one record (all body kinds), a failing function under an argument's xpath_dynamic, axes leaving a childless cursor; the reference interpreter iterates compiled xpaths itself",
+		Rule:  "generated transform_declarations: (A) every leaf (const/external/field with xpath or xpath_dynamic) x all 20 type/no_trim/keep_empty_or_null combinations in every context (object child, array element, FINAL_OUTPUT itself, under a cursor, concat argument, xpath_dynamic, typed and variadic function parameters with absent values), function errors with/without ignore_error, wide arrays/objects; (B) every composition of object/array/custom_func over reduced leaves to depth 3 with all cursor xpaths and key names {a,b,a.b,%}; (C) the same declaration text at two positions (under array vs object, parent vs child cursor), one template at several sites/cursors, nested templates — each x 10 records (6 XML, 3 JSON, 1 plain flat-file style tree); implementation run with the per-record result cache on and off, compared with the reference interpreter; distinct by (declarations, record), outcome class = (family, emitted JSON); further levels: (D) degenerate declarations, (E) arrays under xpath_dynamic, (F) ignore_error inline / in templates / next to a twin, (G) a template referenced with an xpath at several cursors of one record (all body kinds), a failing function under an argument's xpath_dynamic, axes leaving a childless cursor; the reference interpreter iterates compiled xpaths itself; number results x every cast, 38 text results (float notations of whole numbers, integers no float64 holds, int64 edges, boolean spellings) x every cast, every leaf as an argument of a type the parameter does not take",
 		Assumptions: []string{
 			"the reference interpreter ref/declinterp.go (about 300 lines) states the documented semantics; it shares the node tree, the xpath engine and idr.J2NodeToInterface (copy) with the implementation",
 			"the bulk drives transform.ValidateTransformDeclarations + ParseNode, exactly what the ingester calls; a covering subset goes through omniparser.NewSchema/Transform.Read and must give the same bytes",
